@@ -283,6 +283,30 @@ def enum_code_max(F, term):
     return None
 
 
+def enum_code_exact(F, term):
+    """the code when term is `u8::from(Enum::Variant)` of a constant variant, else None"""
+    s = P.unwiden(term)
+    if not (s[0] == "call" and len(s[2]) == 1):
+        return None
+    a0 = P.strip(s[2][0])
+    nm = a0[2] if a0[0] == "enumc" else (a0[1].rsplit("::", 1)[-1] if a0[0] == "agg" and not a0[2] and a0[1].startswith("adt:") else None)
+    if nm is None:
+        return None
+    fn = F.fns.get(s[1])
+    if fn is None or not fn.impl:
+        return None
+    fn = I.resolve_forwarding(F, fn)
+    tr = fn.impl.get("trait") or ""
+    enum_path = tr[len("std::convert::From<&"):-1] if tr.startswith("std::convert::From<&") else None
+    if enum_path not in F.adts:
+        return None
+    try:
+        tab = I.enum_match_table(F, fn, enum_path)
+    except Exception:
+        return None
+    return I.int_leaf(tab[nm]) if nm in tab and tab[nm] and tab[nm][0] != "diverge" else None
+
+
 _UBITS = {"u8": 8, "u16": 16, "u32": 32, "u64": 64, "u128": 128, "usize": 64,
           "i8": 7, "i16": 15, "i32": 31, "i64": 63, "i128": 127, "isize": 63}
 
@@ -362,7 +386,8 @@ def interval(F, t, depth=0):
         return None
     m = enum_code_max(F, t)
     if m is not None:
-        return (0, m)
+        e_ = enum_code_exact(F, t)
+        return (e_, e_) if e_ is not None else (0, m)
     if t[0] == "call" and len(t[2]) == 1 and P.is_widening_from(t[1]):
         return interval(F, t[2][0], depth + 1)
     if t[0] == "cast" and t[1] == "IntToInt":
